@@ -562,8 +562,27 @@ void lemma_si_protocol(void) {
   _Bool en = step(kind, a, &b);
   __CPROVER_assume(en);
   VF_CANARY("lemma premises satisfiable");
-  if (kind == ST_S_HANDOVER) { VF_CANARY("lemma: hand-over step possible"); }
-  if (kind == ST_K_DELIVER) { VF_CANARY("lemma: callback delivery possible"); }
+  /* every step kind is enabled in some state of the invariant (none of the checks below is vacuous for a kind) */
+  if (kind == ST_N_ENTER) { VF_CANARY("lemma: step ST_N_ENTER enabled in some invariant state"); }
+  if (kind == ST_N_EARLY) { VF_CANARY("lemma: step ST_N_EARLY enabled in some invariant state"); }
+  if (kind == ST_N_STORE) { VF_CANARY("lemma: step ST_N_STORE enabled in some invariant state"); }
+  if (kind == ST_N_CB) { VF_CANARY("lemma: step ST_N_CB enabled in some invariant state"); }
+  if (kind == ST_N_START) { VF_CANARY("lemma: step ST_N_START enabled in some invariant state"); }
+  if (kind == ST_N_ERR_STORE) { VF_CANARY("lemma: step ST_N_ERR_STORE enabled in some invariant state"); }
+  if (kind == ST_N_ERR_SIGNAL) { VF_CANARY("lemma: step ST_N_ERR_SIGNAL enabled in some invariant state"); }
+  if (kind == ST_K_ENTER) { VF_CANARY("lemma: step ST_K_ENTER enabled in some invariant state"); }
+  if (kind == ST_K_WIN) { VF_CANARY("lemma: step ST_K_WIN enabled in some invariant state"); }
+  if (kind == ST_K_DELIVER) { VF_CANARY("lemma: step ST_K_DELIVER enabled in some invariant state"); }
+  if (kind == ST_K_LOSE) { VF_CANARY("lemma: step ST_K_LOSE enabled in some invariant state"); }
+  if (kind == ST_S_ENTER) { VF_CANARY("lemma: step ST_S_ENTER enabled in some invariant state"); }
+  if (kind == ST_S_WIN) { VF_CANARY("lemma: step ST_S_WIN enabled in some invariant state"); }
+  if (kind == ST_S_DELIVER) { VF_CANARY("lemma: step ST_S_DELIVER enabled in some invariant state"); }
+  if (kind == ST_S_SWALLOW) { VF_CANARY("lemma: step ST_S_SWALLOW enabled in some invariant state"); }
+  if (kind == ST_S_HANDOVER) { VF_CANARY("lemma: step ST_S_HANDOVER enabled in some invariant state"); }
+  if (kind == ST_L_ENTER) { VF_CANARY("lemma: step ST_L_ENTER enabled in some invariant state"); }
+  if (kind == ST_L_REQ) { VF_CANARY("lemma: step ST_L_REQ enabled in some invariant state"); }
+  if (kind == ST_L_START) { VF_CANARY("lemma: step ST_L_START enabled in some invariant state"); }
+  if (kind == ST_L_TRIVIAL) { VF_CANARY("lemma: step ST_L_TRIVIAL enabled in some invariant state"); }
   if (kind == ST_L_ENTER && a.np == N_IN) { VF_CANARY("lemma: cleanup can be requested while start() is still running"); }
   VF_P(INV(b), "lemma: every step of every party preserves the protocol invariant");
   int who = PARTY_OF(kind);
